@@ -1287,9 +1287,54 @@ func (x *Exec) initPkg(p *ssa.Package) {
 	x.call(FuncV{Fn: p.Func("init")}, nil, "init")
 }
 
+// isZeroSize: a value that occupies no memory (struct{} and friends)
+func isZeroSize(v Val) bool {
+	switch u := v.(type) {
+	case *StructV:
+		for _, f := range u.F {
+			if !isZeroSize(f.V) {
+				return false
+			}
+		}
+		return true
+	case *ArrV:
+		for _, e := range u.E {
+			if !isZeroSize(e.V) {
+				return false
+			}
+		}
+		return true
+	}
+	return false
+}
+
+// addrOf gives every memory location a concrete fake address that respects the two
+// identities real Go programs can observe: a struct (array) starts at the address of its
+// first field (element), and all zero-sized objects share one address (the gc runtime's
+// zerobase; the spec allows it, so it is the adversarial choice).
 func (x *Exec) addrOf(c *Cell) uint64 {
 	if c == nil {
 		return 0
+	}
+	if isZeroSize(c.V) {
+		return 0xC000
+	}
+	for {
+		var first *Cell
+		switch u := c.V.(type) {
+		case *StructV:
+			if len(u.F) > 0 {
+				first = u.F[0]
+			}
+		case *ArrV:
+			if len(u.E) > 0 {
+				first = u.E[0]
+			}
+		}
+		if first == nil || isZeroSize(first.V) {
+			break
+		}
+		c = first
 	}
 	a, ok := x.addrs[c]
 	if !ok {
